@@ -535,6 +535,7 @@ def gen_ei(rng, tier, mods=None, depths=(1, 1, 2, 3, 3, 4, 5, 6, 8, 12), probe=F
     if shared_exec:
         depth = max(depth, rng.choice([4, 5, 6]))
     fixed_mods = mods is not None
+    deep = mods is None and not probe and rng.random() < 0.02
     if mods is None:
         mods = rng.sample(MODNAMES, rng.choice([1, 1, 2, 3]))
     src = {m: ["import sys", "class _SrcLoader:\n    def __init__(self, text):\n        self.text = text\n    def get_source(self, name):\n        return self.text",
@@ -549,6 +550,8 @@ def gen_ei(rng, tier, mods=None, depths=(1, 1, 2, 3, 3, 4, 5, 6, 8, 12), probe=F
         m = where[i]
         nx = ("c%d" % (i + 1)) if where[i + 1] == m else "%s.c%d" % (where[i + 1], i + 1)
         kind = "exec" if shared_exec else rng.choice(KINDS)
+        if deep and i == 0:
+            kind = "rec"
         stmt = rng.choice(STMTS).format(nx=nx)
         if kind == "func":
             if rng.random() < 0.15:
@@ -571,6 +574,8 @@ def gen_ei(rng, tier, mods=None, depths=(1, 1, 2, 3, 3, 4, 5, 6, 8, 12), probe=F
             code = "def c%d(n):\n    return list(%s(n) for _ in [0])[0]" % (i, nx)
         elif kind == "rec":
             k = rng.choice([0, 1, 2, 2, 3, 3, 4, 5, 6])
+            if deep and i == 0:
+                k = rng.choice([997, 1000, 1003, 1100])       # call chains deeper than 1000 entries
             code = "def c%d(n, d=%d):\n    if d:\n        return c%d(n, d - 1)\n    return %s(n)" % (i, k, i, nx)
         elif kind == "exec":
             code = 'exec(compile("def c%d(n):\\n    return %s(n)\\n", "%s", "exec"), globals())' % (
@@ -819,6 +824,7 @@ _ROOT = [None]
 
 def worker_init():
     sys.dont_write_bytecode = True
+    sys.setrecursionlimit(6000)          # some generated call chains are deeper than 1000
     import tempfile
     _ROOT[0] = tempfile.mkdtemp(prefix="c16_")
     import atexit
@@ -1331,6 +1337,8 @@ def distribution(d, case, obs):
     else:
         inc("ei_frames", str(min(20, len(obs["frames"]))))
         inc("ei_host", case.get("host", "file"))
+        if len(obs["live"]) > 1000:
+            inc("ei_deeper_than_1000", "yes")
         inc("ei_loader_only_source", str(sum(1 for l in obs["live"] if l["raw"].strip() and not os.path.exists(l["file"]))))
         inc("ei_type", obs["type"] if len(obs["type"]) < 30 else "long")
         inc("ei_nosrc", str(sum(1 for l in obs["live"] if not l["raw"].strip())))
